@@ -12,6 +12,16 @@ ALL = [f"C{i:02d}" for i in range(1, 21)]
 
 # property -> (category, technique, level text, level note, design ref)
 CHECKS = {
+    "C17": ("exploration",
+            "property-based testing (rapid, mutation-biased pair generator) + bounded-exhaustive pair enumeration; oracle = forall-object Accept agreement of the real filters",
+            "For every generated or enumerated pair of filter terms that the library reports equal (FiltersEqual or Equals) both real filters are evaluated on the whole object universe and must agree; rebuilt comparable terms must compare equal; workload filters must compare equal under permutations of their sources. All ordered pairs of depth<=1 terms over 100+ atoms are enumerated (thorough: including binary And/Or over all atoms), deeper terms are sampled with a generator biased towards near-miss pairs. Exploration: soundness is a universally quantified implication over a finite universe, which search decides directly on that universe and samples beyond it.",
+            "Soundness is judged on the finite object universe described in the evidence; an unsound pair whose disagreement needs an object outside it would be missed. Incompleteness of equality is counted, not failed.",
+            "DESIGN.md section 4, C17"),
+    "C19": ("exploration",
+            "bounded-exhaustive enumeration of workload source sets x candidate objects + rapid generation; oracle = reference ownership predicates",
+            "Every source set of up to 2 (thorough: 3) workloads per kind over the selector/template/namespace universe named in the property is built into the real PodsFilter/ServicesFilter and compared with reference ownership predicates on every candidate pod/service; node, involved-object and selector-match filters are enumerated over their argument universes against objects of the right and of foreign kinds. The RC namespace defect is a recorded known finding matched by a structural signature.",
+            "Trusts the reference predicates (terms_test.go) as the statement of Kubernetes ownership; universe limited to 2-3 namespaces, 2 label keys, 2-3 values.",
+            "DESIGN.md section 4, C19"),
     "C18": ("exploration",
             "property-based testing (rapid) + bounded-exhaustive term enumeration against an independent reference evaluator",
             "Every generated or enumerated filter term is built with the library's constructors and compared, object by object, with an evaluator written from the property text and the Kubernetes selector documentation. Enumerates all terms of depth <= 1 over 32 atoms (thorough: also depth 2 with binary And/Or) against the complete 144-object universe and samples depth-3 terms randomly. Exploration is the right level: the domain is finite per depth and cheap to evaluate, so search against a model is both strong and honest; nothing is proved beyond the enumerated universe.",
